@@ -31,6 +31,12 @@ func (s Suite) Pair(p1, p2 kyber.Point) kyber.Point {
 func (s Suite) ValidatePairing(p1, p2, p3, p4 kyber.Point) bool {
 	a, b := p1.(*G1Elt), p2.(*G2Elt)
 	c, d := p3.(*G1Elt), p4.(*G2Elt)
+	// circl's ProdPairFrac normalises its inputs with a batch inversion that
+	// zeroes the whole batch when one of them is the identity: compare two
+	// single pairings in that case.
+	if a.inner.IsIdentity() || c.inner.IsIdentity() || b.inner.IsIdentity() || d.inner.IsIdentity() {
+		return s.Pair(p1, p2).Equal(s.Pair(p3, p4))
+	}
 	out := bls12381.ProdPairFrac(
 		[]*bls12381.G1{&a.inner, &c.inner},
 		[]*bls12381.G2{&b.inner, &d.inner},
